@@ -132,16 +132,25 @@ class Func:
                 for kw in d.keywords:
                     if kw.arg == "parallel" and isinstance(kw.value, ast.Constant):
                         self.parallel = bool(kw.value.value)
-                if d.args and isinstance(d.args[0], ast.Call):
-                    sig = d.args[0]
-                    self.rtype = parse_type(sig.func)
-                    tys = [parse_type(a) for a in sig.args]
+                sig0 = self._alias(d.args[0]) if d.args else None
+                if sig0 is not None and isinstance(sig0, ast.Call):
+                    sig = sig0
+                    self.rtype = parse_type(self._alias(sig.func))
+                    tys = [parse_type(self._alias(a)) for a in sig.args]
                     if len(tys) != len(self.params):
                         raise AnalysisError("%s: signature has %d types for %d parameters"
                                             % (self.key, len(tys), len(self.params)))
                     self.ptypes = dict(zip(self.params, tys))
             elif isinstance(d, ast.Name) and d.id in ("njit", "jit"):
                 self.is_kernel = True
+
+    def _alias(self, node, depth=0):
+        """A signature element written as a module-level alias is replaced by the aliased expression."""
+        al = getattr(self.module, "sig_aliases", {})
+        while isinstance(node, ast.Name) and node.id in al and depth < 5:
+            node = al[node.id]
+            depth += 1
+        return node
 
     def body(self):
         """Statements without the docstring."""
@@ -183,24 +192,35 @@ class Cls:
         return "%s::%s" % (self.module.short, self.name)
 
 
+def parse_and_normalise(short, relpath, text):
+    try:
+        tree = ast.parse(text, filename=relpath)
+    except SyntaxError as e:
+        raise AnalysisError("cannot parse %s: %s" % (relpath, e))
+    # "extract method" refactorings must not change verdicts: inline private non-jitted helpers at their call sites
+    tree._inlined = 0
+    if short not in ("hll_constants", "hll_bias_experiment"):
+        from .normalize import normalize
+        try:
+            tree._inlined = normalize(tree)
+        except RecursionError:
+            tree._inlined = 0
+    return tree
+
+
 class Module:
-    def __init__(self, short, relpath, text):
+    def __init__(self, short, relpath, text, tree=None):
         self.short = short
         self.relpath = relpath
         self.text = text
         self.lines = text.splitlines()
-        try:
-            self.tree = ast.parse(text, filename=relpath)
-        except SyntaxError as e:
-            raise AnalysisError("cannot parse %s: %s" % (relpath, e))
-        # "extract method" refactorings must not change verdicts: inline private non-jitted helpers at their call sites
-        self.inlined = 0
-        if short not in ("hll_constants", "hll_bias_experiment"):
-            from .normalize import normalize
-            try:
-                self.inlined = normalize(self.tree)
-            except RecursionError:
-                self.inlined = 0
+        self.tree = tree if tree is not None else parse_and_normalise(short, relpath, text)
+        self.inlined = getattr(self.tree, "_inlined", 0)
+        # module-level simple assignments first: Numba signatures may be written through aliases (`_BYTES = types.Bytes(...)`)
+        self.sig_aliases = {}
+        for n in self.tree.body:
+            if isinstance(n, ast.Assign) and len(n.targets) == 1 and isinstance(n.targets[0], ast.Name):
+                self.sig_aliases[n.targets[0].id] = n.value
         self.funcs = {}
         self.classes = {}
         self.imports = {}    # local name -> (module short | external dotted, original name)
@@ -244,8 +264,13 @@ class Model:
                 if fn.endswith(".py"):
                     with open(os.path.join(d, fn), encoding="utf-8") as f:
                         sources[fn[:-3]] = f.read()
+        trees = {short: parse_and_normalise(short, "%s/%s.py" % (PKG, short), text) for short, text in sources.items()}
+        from .normalize import canonicalise_anchor_functions, canonicalise_kernel_params
+        pk = {k: v for k, v in trees.items() if k not in ("hll_constants", "hll_bias_experiment")}
+        self.renamed_anchors = canonicalise_anchor_functions(pk)
+        canonicalise_kernel_params(pk)
         for short, text in sources.items():
-            self.modules[short] = Module(short, "%s/%s.py" % (PKG, short), text)
+            self.modules[short] = Module(short, "%s/%s.py" % (PKG, short), text, tree=trees[short])
             self.digests[short] = hashlib.sha256(text.encode()).hexdigest()[:16]
         # resolve class bases (same module or imported sibling)
         for m in self.modules.values():
